@@ -413,7 +413,7 @@ where
             O_CLONE => self.op_clone(a),
             O_FROM_ITER => self.op_from_iter(a, b, c),
             O_OVERFLOW => self.op_overflow_sweep(w, a, b),
-            O_FMT => self.op_fmt(w, a),
+            O_FMT => self.op_fmt(w, a, b),
             _ => self.op_eqsub(a),
         }
         if self.liar && tl::liar_lies() > lied0 {
@@ -1315,7 +1315,7 @@ where
         }
     }
 
-    fn op_fmt(&mut self, w: usize, a: u8) {
+    fn op_fmt(&mut self, w: usize, a: u8, b: u8) {
         if self.liar {
             return;
         }
@@ -1331,6 +1331,8 @@ where
                 _ => fmt_display::<KD>(cx, &slot.c.m),
             };
             cx.bump(S::fmt_calls);
+            // the same container under width / fill / sign / precision flags: allocation oracle only
+            mmv_base::fmtutil::fmt_spec_noalloc::<KD>(cx, Some(&slot.c.m), Some(&slot.c.m), b);
             match out {
                 Ok(out) => {
                     let want = match sub {
